@@ -168,7 +168,7 @@ Inductive step_spec (p : policy) (cn : cancel) (bd : body) (st : bstate) (sc : l
     next_beh sc = (bh, sc') -> serve cn bd st bh t = (got, st1, o, t1) ->
     (generic_retry p attempt o = DStop \/
      (exists d, generic_retry p attempt o = DWait d /\
-                (d < 0 \/ rewind bd st1 = RwNoGetBody \/ rewind bd st1 = RwGetBodyErr))) ->
+                (d < 0 \/ rt_rewind bd st1 = RwNoGetBody \/ rt_rewind bd st1 = RwGetBodyErr))) ->
     step_spec p cn bd st sc t attempt tr
               (Done (mkOut (result_of_outcome o) st1 sc' t1 (tr ++ [EAttempt t got])))
 | SSfail bh sc' got st1 o t1 :
@@ -183,13 +183,13 @@ Inductive step_spec (p : policy) (cn : cancel) (bd : body) (st : bstate) (sc : l
               (Done (mkOut RPanic st1 sc' t1 (tr ++ [EAttempt t got])))
 | SScancel bh sc' got st1 o t1 d st2 :
     next_beh sc = (bh, sc') -> serve cn bd st bh t = (got, st1, o, t1) ->
-    generic_retry p attempt o = DWait d -> 0 <= d -> rewind bd st1 = RwOk st2 ->
+    generic_retry p attempt o = DWait d -> 0 <= d -> rt_rewind bd st1 = RwOk st2 ->
     pause_cancelled cn (t1 + d) = true ->
     step_spec p cn bd st sc t attempt tr
               (Done (mkOut RCtx st2 sc' (cancel_clock cn t1) ((tr ++ [EAttempt t got]) ++ [EPause t1 d])))
 | SSnext bh sc' got st1 o t1 d st2 :
     next_beh sc = (bh, sc') -> serve cn bd st bh t = (got, st1, o, t1) ->
-    generic_retry p attempt o = DWait d -> 0 <= d -> rewind bd st1 = RwOk st2 ->
+    generic_retry p attempt o = DWait d -> 0 <= d -> rt_rewind bd st1 = RwOk st2 ->
     pause_cancelled cn (t1 + d) = false ->
     step_spec p cn bd st sc t attempt tr
               (Next st2 sc' (t1 + d) ((tr ++ [EAttempt t got]) ++ [EPause t1 d])).
@@ -205,7 +205,7 @@ Proof.
   - eapply SSfail; eauto.
   - destruct (d <? 0) eqn:Hd.
     + eapply SSstop; eauto. right. exists d. split; [exact Hg|left; lia].
-    + destruct (rewind bd st1) as [st2| |] eqn:Hr.
+    + destruct (rt_rewind bd st1) as [st2| |] eqn:Hr.
       * destruct (pause_cancelled cn (t1 + d)) eqn:Hc.
         -- eapply SScancel; eauto. lia.
         -- eapply SSnext; eauto. lia.
@@ -326,7 +326,7 @@ Qed.
 (* Bodies                                                               *)
 
 Definition received (bd : body) (bh : beh) : str := fst (take_body (b_read bh) (bdata bd)).
-Definition wf_body (bd : body) : Prop := bk bd = KNone -> bdata bd = [].
+Definition wf_body (bd : body) : Prop := bk bd = KNone \/ bk bd = KNoBody -> bdata bd = [].
 
 Lemma received_prefix bd bh : exists rest, bdata bd = received bd bh ++ rest.
 Proof.
@@ -350,11 +350,20 @@ Qed.
 Lemma take_body_nil r : take_body r [] = ([], []).
 Proof. destruct r as [k|]; [|reflexivity]. unfold take_body. now rewrite firstn_nil, skipn_nil. Qed.
 
+Lemma rt_rewind_ok bd st st2 : rt_rewind bd st = RwOk st2 -> rewind bd st = RwOk st2.
+Proof. unfold rt_rewind. destruct (bk bd); auto; discriminate. Qed.
+
+Lemma rt_rewind_not_replayable bd :
+  (forall st', rewind bd st' = RwNoGetBody \/ rewind bd st' = RwGetBodyErr) ->
+  forall st', rt_rewind bd st' = RwNoGetBody \/ rt_rewind bd st' = RwGetBodyErr.
+Proof. intros H st'. unfold rt_rewind. destruct (bk bd); auto. Qed.
+
 Lemma rewind_fresh bd st st2 :
-  wf_body bd -> (bk bd = KNone -> s_rest st = []) -> rewind bd st = RwOk st2 -> s_rest st2 = bdata bd.
+  wf_body bd -> (bk bd = KNone \/ bk bd = KNoBody -> s_rest st = []) -> rewind bd st = RwOk st2 -> s_rest st2 = bdata bd.
 Proof.
-  unfold rewind, wf_body. intros Hwf Hn. destruct (bk bd) as [| | |k].
-  - intro E. injection E as <-. rewrite Hn, Hwf; reflexivity.
+  unfold rewind, wf_body. intros Hwf Hn. destruct (bk bd) as [| | | |k].
+  - intro E. injection E as <-. rewrite Hn, Hwf; auto.
+  - intro E. injection E as <-. rewrite Hn, Hwf; auto.
   - intro E. now injection E as <-.
   - discriminate.
   - destruct (s_calls st <? k)%nat; [|discriminate]. intro E. now injection E as <-.
@@ -390,7 +399,7 @@ Lemma round_trip_bodies_gen p cn bd sc0 base st t :
   let out := round_trip p cn bd st (skipn base sc0) t in
   bodies_ok bd sc0 base (attempts (o_trace out)) /\
   o_script out = skipn (base + length (attempts (o_trace out))) sc0 /\
-  (bk bd = KNone -> s_rest (o_st out) = []).
+  (bk bd = KNone \/ bk bd = KNoBody -> s_rest (o_st out) = []).
 Proof.
   intros Hwf Hfresh.
   apply (round_trip_inv p cn bd
@@ -398,7 +407,7 @@ Proof.
                             bodies_ok bd sc0 base (attempts tr))
      (fun o => bodies_ok bd sc0 base (attempts (o_trace o)) /\
                o_script o = skipn (base + length (attempts (o_trace o))) sc0 /\
-               (bk bd = KNone -> s_rest (o_st o) = []))).
+               (bk bd = KNone \/ bk bd = KNoBody -> s_rest (o_st o) = []))).
   2:{ cbn [attempts length]. rewrite Nat.add_0_r. repeat split; auto.
       intros i t' got Hi. destruct i; discriminate. }
   intros st0 sc1 t0 a tr (Hr & Hsc & Hb) Ha.
@@ -407,7 +416,7 @@ Proof.
              next_beh sc1 = (bh, sc') -> serve cn bd st0 bh t0 = (got, st1, o, t1) ->
              bodies_ok bd sc0 base (attempts tr ++ [(t0, got)]) /\
              sc' = skipn (base + length (attempts tr ++ [(t0, got)])) sc0 /\
-             (bk bd = KNone -> s_rest st1 = [])).
+             (bk bd = KNone \/ bk bd = KNoBody -> s_rest st1 = [])).
   { intros bh sc' got st1 o t1 Hn Hs.
     subst sc1. rewrite next_beh_skipn in Hn. injection Hn as <- <-.
     apply serve_got in Hs. destruct Hs as (Hg & Hrest & _). rewrite Hr in Hg, Hrest.
@@ -425,11 +434,12 @@ Proof.
   - auto.
   - auto.
   - repeat split; auto. intro Hk.
-    match goal with Hrw : rewind _ _ = RwOk _ |- _ =>
-      unfold rewind in Hrw; rewrite Hk in Hrw; injection Hrw as <- end. auto.
+    match goal with Hrw : rt_rewind _ _ = RwOk _ |- _ =>
+      apply rt_rewind_ok in Hrw; unfold rewind in Hrw;
+      destruct Hk as [Hk|Hk]; rewrite Hk in Hrw; injection Hrw as <- end; auto.
   - repeat split; auto.
-    match goal with Hrw : rewind _ _ = RwOk _ |- _ =>
-      eapply rewind_fresh; [exact Hwf| |exact Hrw] end. exact B3.
+    match goal with Hrw : rt_rewind _ _ = RwOk _ |- _ =>
+      apply rt_rewind_ok in Hrw; eapply rewind_fresh; [exact Hwf| |exact Hrw] end. exact B3.
 Qed.
 
 Lemma round_trip_bodies p cn bd sc st t :
@@ -459,8 +469,10 @@ Proof.
   - exists bh, sc', got, st1, o, t1. auto.
   - exists bh, sc', got, st1, o, t1. auto 6.
   - exists bh, sc', got, st1, o, t1. auto 6.
-  - match goal with Hr : rewind _ _ = RwOk _ |- _ => destruct (Hrw st1) as [E|E]; rewrite E in Hr; discriminate end.
-  - match goal with Hr : rewind _ _ = RwOk _ |- _ => destruct (Hrw st1) as [E|E]; rewrite E in Hr; discriminate end.
+  - match goal with Hr : rt_rewind _ _ = RwOk _ |- _ =>
+      destruct (rt_rewind_not_replayable bd Hrw st1) as [E|E]; rewrite E in Hr; discriminate end.
+  - match goal with Hr : rt_rewind _ _ = RwOk _ |- _ =>
+      destruct (rt_rewind_not_replayable bd Hrw st1) as [E|E]; rewrite E in Hr; discriminate end.
 Qed.
 
 Lemma oneshot_not_replayable bd : bk bd = KOneShot ->
